@@ -430,6 +430,7 @@ class Module:
         self.globs = []      # (segments, is_pub)
         self.pub = False
         self.impls = []      # (generics, trait name, self type, preds, src text)
+        self.inherent = []   # (header tokens, all tokens, index of `{`, index of `}`) of inherent impl blocks
         self.errors = []
 
 
@@ -622,6 +623,15 @@ def scan_items(c, mod, end):
                     elif d == 0 and x.k == "id" and x.v in ("Send", "Sync") and k + 1 < len(hdr) and hdr[k + 1].v == "for":
                         marker = x.v
                 c.i = match_close(c.t, body) + 1
+                is_trait_impl = False
+                d = 0
+                for k, x in enumerate(hdr):
+                    if x.k == "op" and x.v == "<": d += 1
+                    elif x.k == "op" and x.v == ">": d -= 1
+                    elif x.k == "id" and x.v == "where" and d == 0: break
+                    elif d == 0 and x.k == "id" and x.v == "for": is_trait_impl = True
+                if not is_trait_impl and m.emit and cfg is not False:
+                    m.inherent.append((hdr, c.t, body, c.i - 1))
                 if marker and m.emit:
                     src = " ".join(x.v for x in hdr)
                     try:
@@ -1019,9 +1029,222 @@ def build():
     return "\n".join(lines) + "\n", errors, decls
 
 
+# ------------------------------------------------------------------------------------------------
+# public method signatures (C16, the borrow clause): token-level, tolerant of const generics
+# ------------------------------------------------------------------------------------------------
+def impl_self_decl(hdr, mod):
+    """inherent impl header -> (Decl of the self type | None, impl-level lifetimes)"""
+    c = Cur(hdr)
+    c.opt("unsafe")
+    c.eat("impl")
+    lts = []
+    if c.at("<"):
+        e = match_close_angle(hdr, c.i)
+        d = 0
+        for k in range(c.i, e + 1):
+            x = hdr[k]
+            if x.k == "op" and x.v == "<": d += 1
+            elif x.k == "op" and x.v == ">": d -= 1
+            elif x.k == "lifetime" and d == 1 and hdr[k - 1].v in ("<", ","):
+                lts.append(x.v[1:])
+        c.i = e + 1
+    segs = []
+    c.opt("::")
+    while c.peek().k == "id":
+        segs.append(c.ident())
+        if c.at("::") and c.peek(1).k == "id":
+            c.i += 1
+            continue
+        break
+    if not segs:
+        return None, lts
+    r = walk_from(mod, segs)
+    return (r[1] if r and r[0] == "decl" else None), lts
+
+
+def match_close_angle(toks, i):
+    d = 0
+    for k in range(i, len(toks)):
+        x = toks[k]
+        if x.k == "op" and x.v == "<": d += 1
+        elif x.k == "op" and x.v == ">":
+            d -= 1
+            if d == 0:
+                return k
+        elif x.k == "op" and x.v in ("(", "[", "{"):
+            pass
+    raise Untranslated("unbalanced <>")
+
+
+def scan_pub_fns(toks, lo, hi, mod, owner, impl_lts):
+    """pub fns directly inside the impl body toks[lo+1:hi] -> list of signature dicts"""
+    out = []
+    i = lo + 1
+    while i < hi:
+        x = toks[i]
+        if x.k == "op" and x.v == "#":
+            j = i + 1
+            if toks[j].v == "!":
+                j += 1
+            i = match_close(toks, j) + 1
+            continue
+        # one item: [pub [(..)]] [const] [unsafe] [extern "C"] fn name ...   | const / type items
+        start = i
+        vis = ""
+        if x.k == "id" and x.v == "pub":
+            vis = "pub"
+            i += 1
+            if toks[i].v == "(":
+                i = match_close(toks, i) + 1
+                vis = "pub(restricted)"
+        while toks[i].k == "id" and toks[i].v in ("const", "unsafe", "default", "async") and not (toks[i].v == "const" and toks[i + 1].k == "id" and toks[i + 1].v not in ("fn", "unsafe")):
+            i += 1
+        if not (toks[i].k == "id" and toks[i].v == "fn"):
+            # not a fn: skip to `;` or a balanced `{}`
+            while i < hi and not (toks[i].k == "op" and toks[i].v in (";", "{")):
+                if toks[i].k == "op" and toks[i].v in ("(", "["):
+                    i = match_close(toks, i)
+                i += 1
+            i = (match_close(toks, i) if toks[i].v == "{" else i) + 1
+            continue
+        i += 1
+        name = toks[i].v
+        i += 1
+        fn_lts = []
+        if toks[i].k == "op" and toks[i].v == "<":
+            e = match_close_angle(toks, i)
+            d = 0
+            for k in range(i, e + 1):
+                y = toks[k]
+                if y.k == "op" and y.v == "<": d += 1
+                elif y.k == "op" and y.v == ">": d -= 1
+                elif y.k == "lifetime" and d == 1 and toks[k - 1].v in ("<", ","):
+                    fn_lts.append(y.v[1:])
+            i = e + 1
+        if not (toks[i].k == "op" and toks[i].v == "("):
+            raise Untranslated(f"fn {name}: expected `(`")
+        pe = match_close(toks, i)
+        params = toks[i + 1:pe]
+        i = pe + 1
+        # receiver
+        recv, k = "RecvNone", 0
+        pv = [t.v for t in params[:5]]
+        if pv[:1] == ["self"] or pv[:2] == ["mut", "self"]:
+            recv = "RecvOwn"; k = 1 if pv[:1] == ["self"] else 2
+        elif pv[:1] == ["&"]:
+            j = 1
+            if len(params) > j and params[j].k == "lifetime":
+                j += 1
+            if len(params) > j and params[j].v == "mut" and len(params) > j + 1 and params[j + 1].v == "self":
+                recv = "RecvMut"; k = j + 2
+            elif len(params) > j and params[j].v == "self":
+                recv = "RecvRef"; k = j + 1
+        in_lts = sorted({t.v[1:] for t in params if t.k == "lifetime" and t.v not in ("'_", "'static")})
+        args_borrow = any((t.k == "op" and t.v in ("&", "&&")) or t.k == "lifetime" for t in params[k:])
+        # return type
+        ret = []
+        if toks[i].k == "op" and toks[i].v == "->":
+            i += 1
+            d = 0
+            while not (d == 0 and ((toks[i].k == "id" and toks[i].v == "where") or (toks[i].k == "op" and toks[i].v in ("{", ";")))):
+                if toks[i].k == "op" and toks[i].v in ("<", "(", "["): d += 1
+                elif toks[i].k == "op" and toks[i].v in (">", ")", "]"): d -= 1
+                ret.append(toks[i]); i += 1
+        while not (toks[i].k == "op" and toks[i].v in ("{", ";")):
+            if toks[i].k == "op" and toks[i].v in ("(", "["):
+                i = match_close(toks, i)
+            i += 1
+        i = (match_close(toks, i) if toks[i].v == "{" else i) + 1
+        if vis != "pub":
+            continue
+        refmut = any(t.k == "op" and t.v in ("&", "&&") and (
+            (n + 1 < len(ret) and ret[n + 1].v == "mut") or
+            (n + 2 < len(ret) and ret[n + 1].k == "lifetime" and ret[n + 2].v == "mut")) for n, t in enumerate(ret))
+        ref = any(t.k == "op" and t.v in ("&", "&&") for t in ret)
+        elided = any(t.k == "lifetime" and t.v == "'_" for t in ret)
+        ret_lts = sorted({t.v[1:] for t in ret if t.k == "lifetime" and t.v not in ("'_", "'static")})
+        heads = []
+        for n, t in enumerate(ret):
+            if t.k != "id" or (n > 0 and ret[n - 1].v == "::"):
+                continue
+            if t.v == "Self":
+                key = owner.key
+            else:
+                r = lookup(mod, t.v, frozenset())
+                key = r[1].key if r and r[0] == "decl" else None
+            if key and key not in heads:
+                heads.append(key)
+        out.append(dict(owner=owner.key, name=name, recv=recv, impl_lts=impl_lts, fn_lts=fn_lts, in_lts=in_lts,
+                        args_borrow=args_borrow, refmut=refmut, ref=ref, elided=elided, ret_lts=ret_lts, heads=heads,
+                        src=" ".join(t.v for t in toks[start:pe + 1]) + ((" -> " + " ".join(t.v for t in ret)) if ret else "")))
+    return out
+
+
+SIG_HEADER = """
+(* ---------------------------------------------------------------------------------------------
+   The PUBLIC METHOD SIGNATURES of the exported types (inherent `pub fn`s), for the borrow clause
+   of C16: receiver kind, the lifetimes declared on the fn / mentioned in its inputs / in its
+   return type, whether the return type contains `&mut`, `&`, an elided lifetime, and which
+   declarations of this crate it mentions.
+   --------------------------------------------------------------------------------------------- *)
+Inductive recv := RecvNone | RecvRef | RecvMut | RecvOwn.
+
+Record fsig := mkSig {
+  s_owner : string;            (* declaration the method belongs to *)
+  s_name : string;
+  s_recv : recv;               (* none | &self | &mut self | self *)
+  s_impl_lts : list string;    (* lifetime parameters of the impl block *)
+  s_fn_lts : list string;      (* lifetime parameters declared on the fn itself *)
+  s_in_lts : list string;      (* named lifetimes mentioned in the receiver / argument types *)
+  s_args_borrow : bool;        (* some non-receiver argument is or contains a borrow *)
+  s_ret_refmut : bool;         (* the return type contains `&mut` *)
+  s_ret_ref : bool;            (* the return type contains `&` *)
+  s_ret_elided : bool;         (* the return type contains the elided lifetime '_ *)
+  s_ret_lts : list string;     (* named lifetimes in the return type *)
+  s_ret_heads : list string;   (* declarations of this crate mentioned in the return type *)
+}.
+"""
+
+
+def build_sigs(decls):
+    sigs, errors = [], []
+    for m in MODULES.values():
+        if not m.emit:
+            continue
+        for hdr, toks, lo, hi in m.inherent:
+            try:
+                owner, impl_lts = impl_self_decl(hdr, m.path)
+                if owner is None or not owner.pub_paths:
+                    continue
+                sigs += scan_pub_fns(toks, lo, hi, m.path, owner, impl_lts)
+            except (Untranslated, ParseError, IndexError) as ex:
+                errors.append((f"impl `{' '.join(x.v for x in hdr)[:70]}`", f"signatures: {ex}"))
+    lines = [SIG_HEADER]
+    names = []
+    def b(x): return "true" if x else "false"
+    for n, g in enumerate(sigs):
+        ident = f"sig_{n}"
+        lines.append(f"(* {g['src'][:200]} *)")
+        lines.append(f"Definition {ident} : fsig := mkSig {q(g['owner'])} {q(g['name'])} {g['recv']} {coq_list([q(x) for x in g['impl_lts']])} "
+                     f"{coq_list([q(x) for x in g['fn_lts']])} {coq_list([q(x) for x in g['in_lts']])} {b(g['args_borrow'])} "
+                     f"{b(g['refmut'])} {b(g['ref'])} {b(g['elided'])} {coq_list([q(x) for x in g['ret_lts']])} {coq_list([q(x) for x in g['heads']])}.")
+        names.append(ident)
+    lines.append("\nDefinition gen_sigs : list fsig :=\n  [ " + ";\n    ".join(names) + " ].\n")
+    for item, why in errors:
+        lines.append(f"(* UNTRANSLATED {item}: {why} *)")
+    if errors:
+        lines.append("Definition gen_sigs_complete : True := sigx_reported_untranslated_signatures.")
+    else:
+        lines.append("Definition gen_sigs_complete : True := I.")
+    return "\n".join(lines) + "\n", errors
+
+
 def main(argv):
     out = argv[1] if len(argv) > 1 else OUT_DEFAULT
     text, errors, decls = build()
+    stext, serrors = build_sigs(decls)
+    text += stext
+    errors = errors + serrors
     old = None
     if os.path.exists(out):
         old = open(out).read()
